@@ -251,7 +251,7 @@ func c19Exec(t *testing.T, scn c19Scenario, ch *mc.Chooser) (rec c19Rec, machine
 			flushed := 0
 			sleeps := 0
 			deferred := map[parked]bool{}
-			for step := 0; step < 400 && !ended; step++ {
+			for step := 0; step < 400+4*len(items) && !ended; step++ {
 				rec.Steps++
 				pk := listParked()
 				type act struct {
@@ -629,6 +629,28 @@ func runC19(t *testing.T, rep *mc.Reporter) {
 			}
 			scn := c19Scenario{Keys: st, Cfg: cfg, Init: []string{"M", "Mw"}, Topo: []string{"K2"}, Sleep: true, Defer: true}
 			mc.RunScenario(rep, scn, retryBound, budget, func(ch *mc.Chooser) mc.Result { return exec(scn, ch) })
+		}
+	}
+	// ---- family "long": one flush carrying far more commands for one node than any constant in the
+	// client (per-node batch sizes, pipeline in-flight window of 64): 140 writes to two keys of one
+	// slot, batch size 200; the explorer still chooses which connection's next request the node
+	// processes, so a batch split over several connections shows as a per-key inversion
+	{
+		long := make([]int, 140)
+		for i := range long {
+			long[i] = i % 2 // a{t}, b{t}
+		}
+		for _, cfg := range []aofCfg{
+			{Txn: false, Resume: true, Pipeline: false, Count: 200, Bytes: 1 << 20, DbMode: "id"},
+			{Txn: false, Resume: true, Pipeline: true, Count: 200, Bytes: 1 << 20, DbMode: "id"},
+			{Txn: false, Resume: true, Pipeline: true, Count: 70, Bytes: 1 << 20, DbMode: "id"},
+		} {
+			idx++
+			if idx%nshards != shard || budget.Expired() {
+				continue
+			}
+			scn := c19Scenario{Keys: long, Cfg: cfg}
+			mc.RunScenario(rep, scn, 1, budget, func(ch *mc.Chooser) mc.Result { return exec(scn, ch) })
 		}
 	}
 	// ---- preemption family: default request order, migrations already in place when the replay
